@@ -8,6 +8,7 @@ import (
 	"fmt"
 	"os"
 	"path/filepath"
+	"runtime/pprof"
 	"sort"
 	"strconv"
 	"strings"
@@ -57,6 +58,14 @@ func main() {
 	}
 	if t := os.Getenv("VERIF_TIER"); t != "" && cmd == "check" && !flagSet(fs, "tier") {
 		o.tier = t
+	}
+	if pf := os.Getenv("GOSX_PROF"); pf != "" {
+		f, _ := os.Create(pf)
+		pprof.StartCPUProfile(f)
+		code := runCheck(&o)
+		pprof.StopCPUProfile()
+		f.Close()
+		os.Exit(code)
 	}
 	switch cmd {
 	case "check":
